@@ -242,6 +242,11 @@ def quick_class_sample(seed: int, extra: int = 150) -> list[type]:
         if ".request_header." in c.__module__ or ".response_header." in c.__module__:
             if c not in picked:
                 picked.append(c)
+    # every class that declares a tagged field (36 in the 3.9.0 schema): the tagged section is where most of the
+    # subtle behaviour lives, and these classes are too few for a random sample to be relied upon
+    for c in classes:
+        if c not in picked and any(f.tag is not None for f in describe(c).fields):
+            picked.append(c)
     rng = random.Random(seed)  # harness-level class sampling only, a pure function of the seed
     rest = [c for c in classes if c not in set(picked)]
     rng.shuffle(rest)
